@@ -535,6 +535,11 @@ func convertValue(srcVal reflect.Value, dstType reflect.Type) (reflect.Value, er
 		srcVal = srcVal.Elem()
 	}
 
+	// A `nil` value (e.g. a nil slice or pointer that was encoded as `null`) becomes the zero value
+	if !srcVal.IsValid() {
+		return reflect.Zero(dstType), nil
+	}
+
 	if srcVal.Type().ConvertibleTo(dstType) {
 		return srcVal.Convert(dstType), nil
 	}
